@@ -21,11 +21,11 @@ import (
 
 // TOp is one step of a TokenLimiter history; the first step of every path is the configuration.
 type TOp struct {
-	K     string `json:"k"`               // cfg | allow | adv | outage
+	K     string `json:"k"`               // cfg | allow | adv | outage | blip
 	Rate  int    `json:"rate,omitempty"`  // cfg
 	Burst int    `json:"burst,omitempty"` // cfg
 	I     int    `json:"i,omitempty"`     // allow: instance 1|2
-	N     int    `json:"n,omitempty"`     // allow: tokens requested
+	N     int    `json:"n,omitempty"`     // allow: tokens requested; blip: number of store commands that fail next
 	Ms    int64  `json:"ms,omitempty"`    // adv
 	Dead  string `json:"dead,omitempty"`  // allow: "" | "deadline" | "canceled" — AllowNCtx under a context that has already ended
 	On    bool   `json:"on,omitempty"`    // outage
@@ -55,6 +55,8 @@ func (o TOp) String() string {
 			return "outage-begins" + h
 		}
 		return "outage-ends" + h
+	case "blip":
+		return fmt.Sprintf("next-%d-store-command(s)-fail", o.N)
 	}
 	return o.K
 }
@@ -139,16 +141,18 @@ func newTokenWorld(rate, burst int) *tokenWorld {
 //   - otherwise (store down, or instance still in rescue mode): the in-process limiter answered;
 //     only the local bound is demanded.
 func (w *tokenWorld) judgeAllow(inst, n int, nowMs int64, before, after instState, got bool) (class, msg string) {
-	return w.judgeAllowCtx(inst, n, nowMs, before, after, got, "")
+	return w.judgeAllowCtx(inst, n, nowMs, before, after, got, "", false)
 }
 
 // judgeAllowCtx: dead != "" means the call was made under a context that had already ended. The
 // statement leaves its answer open only this far: it may be refused without touching the bucket
 // (the request never reached the store), or answered by the shared bucket like any other call;
 // in no case may it move a store-mode instance to its private limiter while the store is reachable.
-func (w *tokenWorld) judgeAllowCtx(inst, n int, nowMs int64, before, after instState, got bool, dead string) (class, msg string) {
+// failed: the fault injector answered a store command of THIS call with an error (one-shot
+// fault): for this call the store was not reachable, only the local bound is demanded.
+func (w *tokenWorld) judgeAllowCtx(inst, n int, nowMs int64, before, after instState, got bool, dead string, failed bool) (class, msg string) {
 	sec := vsched.Epoch.Unix() + nowMs/1000
-	if before.alive && !w.down {
+	if before.alive && !w.down && !failed {
 		w.shared.refill(sec)
 		had := w.shared.tokens
 		if dead != "" && !got {
@@ -275,6 +279,7 @@ func runTokenOnce(path []TOp, verbose bool) runResult {
 					return
 				}
 				before := state(o.I)
+				armed := e.oneShot.Load()
 				var got bool
 				switch o.Dead {
 				case "":
@@ -288,24 +293,28 @@ func runTokenOnce(path []TOp, verbose bool) runResult {
 					e.counted(func() { got = lims[o.I].AllowNCtx(ctx, now, o.N) })
 					cancel()
 				}
+				failed := e.oneShot.Load() < armed // read before the monitor (if any was started) runs
 				vsched.Quiesce()
 				after := state(o.I)
 				if verbose {
-					fmt.Printf("  step %d %-22v -> %-5v  instance before: %v, after: %v; store %s\n", i, o, got, before, after, tokenStoreDump(e, lims[1], nowMs))
+					fmt.Printf("  step %d %-22v -> %-5v  instance before: %v, after: %v; store %s; store command failed: %v\n", i, o, got, before, after, tokenStoreDump(e, lims[1], nowMs), failed)
 				}
 				if o.N > cfg.Burst || !got {
 					res.nontrivial = true
 				}
-				if class, msg := w.judgeAllowCtx(o.I, o.N, nowMs, before, after, got, o.Dead); class != "" {
+				if class, msg := w.judgeAllowCtx(o.I, o.N, nowMs, before, after, got, o.Dead, failed); class != "" {
 					fail(i, class, msg)
 					return
 				}
 			case "adv":
+				// a pending one-shot fault may fail a ping during this advance: the store counts as
+				// reachable for this interval only if none was armed when it began
+				clean := e.oneShot.Load() == 0
 				vsched.Advance(msDur(o.Ms))
 				nowMs += o.Ms
 				e.forward(o.Ms, nowMs)
 				w.advance(o.Ms)
-				if !w.down {
+				if !w.down && clean {
 					upSince += o.Ms
 				}
 				if verbose {
@@ -332,6 +341,12 @@ func runTokenOnce(path []TOp, verbose bool) runResult {
 				if verbose {
 					fmt.Printf("  step %d %v\n", i, o)
 				}
+			case "blip":
+				e.failNext(o.N)
+				upSince = 0
+				if verbose {
+					fmt.Printf("  step %d %v\n", i, o)
+				}
 			}
 		}
 		// state key: configuration ⊕ shared bucket (refilled to now) ⊕ sub-second phase ⊕ outage ⊕
@@ -342,12 +357,13 @@ func runTokenOnce(path []TOp, verbose bool) runResult {
 			s := state(k)
 			p = append(p, fmt.Sprintf("#%d:%v/%v/%.3f/%d", k, s.alive, s.monitor, s.rescue, w.loc[k].debt))
 		}
-		res.key = fmt.Sprintf("%v|bucket=%d|phase=%d|down=%v|up=%v|%s|timers=%d|%s", cfg, w.shared.tokens, nowMs%1000, w.down, upSince >= 100,
+		res.key = fmt.Sprintf("%v|bucket=%d|phase=%d|down=%v|blip=%d|up=%v|%s|timers=%d|%s", cfg, w.shared.tokens, nowMs%1000, w.down, e.oneShot.Load(), upSince >= 100,
 			strings.Join(p, " "), vsched.PendingTimers(), tokenStoreDump(e, lims[1], nowMs))
 	}
 	ex := vsched.RunSeq(body)
 	e.hardFault(false)
 	e.fault(false)
+	e.failNext(0)
 	if ex.Outcome != "ok" && res.err == "" {
 		res.err = fmt.Sprintf("%v %v: execution ended with %s: blocked %v panics %v", cfg, path[1:], ex.Outcome, ex.Blocked(), ex.Panics())
 		res.class = "token:limiter-" + ex.Outcome
@@ -364,12 +380,18 @@ func tokenConfigs() []TOp {
 	return out
 }
 
-func tokenAlphabet(path []TOp) []TOp {
+// tokenAlphabet: maxBlips = number of one-shot faults offered per history; last = the op is the
+// last one of the history (arming a fault that nothing can hit any more is not offered).
+func tokenAlphabet(path []TOp, maxBlips int, last bool) []TOp {
 	cfg := path[0]
-	down := false
+	down, lastBlip, blips := false, false, 0
 	for _, o := range path {
 		if o.K == "outage" {
 			down = o.On
+		}
+		lastBlip = o.K == "blip"
+		if lastBlip {
+			blips++
 		}
 	}
 	var ns []int
@@ -396,5 +418,11 @@ func tokenAlphabet(path []TOp) []TOp {
 			ops = append(ops, TOp{K: "adv", Ms: ms})
 		}
 	}
-	return append(ops, TOp{K: "outage", On: !down})
+	ops = append(ops, TOp{K: "outage", On: !down})
+	// one-shot faults: exactly the next 1 / 2 store commands fail (a lost command, a very short
+	// flap); re-arming right after arming only overwrites the counter
+	if !down && !lastBlip && !last && blips < maxBlips {
+		ops = append(ops, TOp{K: "blip", N: 1}, TOp{K: "blip", N: 2})
+	}
+	return ops
 }
